@@ -17,10 +17,6 @@ VCPU_BASE = {(0, 0): 0xe5007000, (1, 0): 0xe5007400, (0, 1): 0xe5006c00, (2, 2):
 PERL = {"C": ("<B", 1), "v": ("<H", 2), "V": ("<I", 4)}        # sark.struct pack letters, from the SARK documentation
 
 
-class Unexpected(Exception):
-    pass
-
-
 class Session(object):
     """One controller + one simulated machine (advertised buffer, window, network mode)."""
 
@@ -31,6 +27,7 @@ class Session(object):
         self.model = sim.Memory()
         self.buffer_size, self.window = buffer_size, window
         self.ops = 0
+        self.nontrivial = 0       # calls that made the machine execute at least one command
         self.viol = []            # (clause, why, inputs)
         self.cm = None
         self.mc = None
@@ -70,8 +67,13 @@ class Session(object):
         for (x, y, p, addr, data) in writes:
             self.model.poke(x, y, p, addr, data)
         S = self.ctx["S"]
+        before = self.machine.n_commands
         try:
-            got = fn()
+            try:
+                got = fn()
+            finally:
+                if self.machine.n_commands > before:
+                    self.nontrivial += 1
         except sim.Abort as e:
             self.bad("no_termination", "call still running after %d select calls (%s)" % (self.net.steps, e), inputs)
             self.dead = True
@@ -95,7 +97,7 @@ class Session(object):
             clause = "memory_after_write" if writes else "read_changed_memory"
             self.bad(clause, "memory differs from old memory with exactly the written bytes replaced; first differences "
                              "(place, address, is, should be): %s" % (["%r 0x%08x 0x%02x 0x%02x" % tuple(t) for t in d],), inputs)
-            self.model = self.machine.memory.copy()        # resynchronise so that one fault is reported once
+            self.model.pages = self.machine.memory.copy().pages        # resynchronise (in place) so that one fault is reported once
         self.collect(inputs)
         return got
 
@@ -344,8 +346,7 @@ def run(tier="quick", seed=0):
     mine = sim.parse_struct_file(raw)
     ctx = {"MC": MachineController, "S": S, "Links": Links, "structs": struct_file.read_struct_file(raw),
            "sv_base": mine["sv"]["base"], "sv": mine["sv"]["fields"], "vcpu": mine["vcpu"]["fields"], "vcpu_size": mine["vcpu"]["size"]}
-    ev, viol, samples, seen_clauses, commands = 0, [], [], set(), 0
-    distinct = set()
+    ev, viol, samples, seen_clauses, commands, distinct_n = 0, [], [], set(), 0, 0
     per_mode = {}
 
     def harvest(ses, mode):
@@ -366,19 +367,12 @@ def run(tier="quick", seed=0):
                     continue
                 stride = 1
                 parts = ("rw", "fill", "link", "struct", "vcpu")
-                if quick:
-                    if mode == "plain":
-                        stride = 1 if W == 2 else 2
-                        parts = parts if (W == 2 or B in (5, 256)) else ("rw", "fill", "link")
-                    elif mode == "reorder":
-                        stride = 3
-                        parts = ("rw", "link", "vcpu") if W == 4 else ("rw", "fill", "struct")
-                    else:
-                        stride = 3
-                        parts = ("rw", "fill", "link", "vcpu") if W != 2 else ("rw", "struct", "vcpu")
+                if quick and mode != "plain":
+                    stride = 2
                 with Session(ctx, B, W, make_policy(mode, random.Random(seed * 7919 + B * 31 + W))) as ses:
                     sweep(ses, tier, rng, stride, parts)
                     ev += ses.ops
+                    distinct_n += ses.nontrivial
                     commands += ses.machine.n_commands
                     per_mode[mode] = per_mode.get(mode, 0) + ses.ops
                     harvest(ses, mode)
@@ -387,13 +381,14 @@ def run(tier="quick", seed=0):
                     if len(samples) < 3 and B in (5, 255) and W == 2 and mode != "plain":
                         samples.append({"buffer_size": B, "window_size": W, "network": mode, "calls": ses.ops,
                                         "commands_executed": ses.machine.n_commands, "last_commands": [list(c) for c in ses.machine.log[-3:]]})
-    distinct_n = ev
-
     # exhaustive fault schedules (the C06 alphabet without the fatal code) on short call sequences
     alphabet = [sim.OK, sim.REQ_LOST, sim.REP_LOST, sim.LATE1, sim.DUP, sim.DUPLATE, sim.RETRY82]
-    depth = 4 if quick else 6
+    depth = 4 if quick else 5
     sched_runs = 0
-    for B, W, addr, L in ((4, 2, BASES[1] + 1, 10), (5, 4, BASES[0] + 3, 13), (8, 1, BASES[1] + 2, 9)):
+    scenarios = [(4, 2, BASES[1] + 1, 10, depth), (5, 4, BASES[0] + 3, 13, depth), (8, 1, BASES[1] + 2, 9, depth)]
+    if not quick:
+        scenarios.append((16, 2, BASES[0] + 2, 35, depth + 1))
+    for B, W, addr, L, dep in scenarios:
         def run_one(prefix):
             sch = sim.Schedule(prefix)
             bad_tx = sum(1 for o in prefix if o in (sim.REQ_LOST, sim.REP_LOST, sim.LATE1, sim.RETRY82))
@@ -408,11 +403,12 @@ def run(tier="quick", seed=0):
                        writes=[(0, 1, 0, VCPU_BASE[(0, 1)] + 2 * ctx["vcpu_size"] + ctx["vcpu"]["user2"][1], struct.pack("<I", 0x11223344))])
                 harvest(ses, "schedule")
                 run_one.ops += ses.ops
+                run_one.nontrivial += ses.nontrivial
             return sch.consumed
-        run_one.ops = 0
-        sched_runs += sim.explore(run_one, alphabet, depth)
+        run_one.ops = run_one.nontrivial = 0
+        sched_runs += sim.explore(run_one, alphabet, dep)
         ev += run_one.ops
-        distinct_n += run_one.ops
+        distinct_n += run_one.nontrivial
         per_mode["schedule"] = per_mode.get("schedule", 0) + run_one.ops
 
     # replies longer than the length the connection passes to recv(): what a datagram socket would cut off
@@ -444,11 +440,12 @@ def run(tier="quick", seed=0):
                     "cores 0,1,2,17, core-local and chip-wide address ranges); addresses base+0..9 x lengths 0..3*buffer+3 (buffers 255/256 in quick: lengths "
                     "within 3 of a multiple of the buffer); network modes: plain, reorder (replies overtake inside groups of four), faulty (seeded: each "
                     "transmission ok / request lost / reply lost / reply late 1.25 or 2.25 timeouts / duplicated / duplicated late / rc 0x82 / rc 0x8d, at most two "
-                    "faulty transmissions per command, n_tries 4), plus exhaustive outcome schedules to depth %d on write+read+per-core-field sequences "
-                    "(%d schedules).  Every call distinct by (session, call, address, length, place); all non-trivial (each checks returned bytes or the whole "
-                    "memory of all chips).  calls per mode: %r; commands executed by the simulated machine: %d" % (depth, sched_runs, per_mode, commands),
+                    "faulty transmissions per command, n_tries 4), plus exhaustive outcome schedules to depth %d%s on write+read+per-core-field sequences "
+                    "(%d schedules).  Every call is distinct by (session, call, address, length or field, place) and is checked for the bytes returned and "
+                    "the whole memory of all chips; non-trivial = the machine executed at least one command for it (zero-length and refused calls excluded).  calls per mode: %r; commands executed by the simulated machine: %d" % (
+                        depth, "" if quick else " (one sequence to depth %d)" % (depth + 1), sched_runs, per_mode, commands),
             "bound": "buffers %r x windows (1,2,4) x 3 network modes; addresses base+0..9, base in %s; lengths <= 3*buffer+3; %s" % (
-                list(buffers), [hex(b) for b in BASES], "quick: strided subsets in the reorder/faulty sessions" if quick else "all lengths for every buffer"),
+                list(buffers), [hex(b) for b in BASES], "quick: every second (address, length) pair / field in the reorder and faulty sessions" if quick else "all lengths for every buffer"),
             "exhaustive": not quick, "label": "bounded", "samples": samples, "violations": viol,
             "seconds": round(_time.time() - t0, 2)}
 
